@@ -24,6 +24,23 @@ def _strict_json(s: str):
     return json.loads(s, parse_constant=bad_const)
 
 
+def _drain(x, depth=0):
+    """Read lazily produced parts of a result to the end (iterators become lists)."""
+    import collections.abc
+
+    if depth > 20:
+        return x
+    if isinstance(x, collections.abc.Iterator):
+        return [_drain(e, depth + 1) for e in x]
+    if isinstance(x, dict):
+        return {k: _drain(v, depth + 1) for k, v in x.items()}
+    if isinstance(x, list):
+        return [_drain(e, depth + 1) for e in x]
+    if isinstance(x, tuple) and type(x) is tuple:
+        return tuple(_drain(e, depth + 1) for e in x)
+    return x
+
+
 class C14(PropBase):
     ID = "C14"
     REPLICAS = 2
@@ -117,6 +134,14 @@ class C14(PropBase):
                 a = hist.json_text(w2) or rng.choice(MALFORMED)
                 steps.append({"op": "reuse", "t": t, "first": a, "second": jt, "buf": rng.choice(["bytearray", "mvw"]), "mod": mod,
                               "t_first": t2 if rng.random() < 0.5 else t})
+                if rng.random() < 0.35:
+                    # a lazily consumed result: what it yields was fixed when the call returned, not when the
+                    # caller gets round to reading it (the buffer holds the next message by then)
+                    src, txt = rng.choice([("typing.Iterator[int]", "[1, 2, 3]"), ("collections.abc.Iterator[str]", '["a", "b"]'),
+                                           ("typing.Iterator[tuple[int, str]]", '[[1, "x"], [2, "y"]]'), ("typing.Iterable[int]", "[4, 5]"),
+                                           ("dict[str, typing.Iterator[int]]", '{"k": [1, 2]}')])
+                    steps[-1]["t_first"] = {"k": "raw", "src": src}
+                    steps[-1]["first"] = txt
             else:
                 r2 = rng.random()
                 if r2 < 0.4:
@@ -178,7 +203,11 @@ class C14(PropBase):
             view = memoryview(buf) if step["buf"] == "mvw" else buf
             second = sess.guarded(sess.call, step, typelib.unmarshal, T, view)
             ref = sess.guarded(sess.call, step, typelib.unmarshal, T, step["second"])
-            sess._c14 = (first, second, ref)
+            # the first result is read only now; the reference is the same text as str, read at once
+            ref1 = sess.guarded(sess.call, step, typelib.unmarshal, T1, step["first"])
+            c_first = sess.guarded(lambda: model.canon(_drain(first.value)) if first.ok else ["exc", type(first.exc).__name__])
+            c_ref1 = sess.guarded(lambda: model.canon(_drain(ref1.value)) if ref1.ok else ["exc", type(ref1.exc).__name__])
+            sess._c14 = (first, second, ref, c_first, c_ref1)
             sess.faults["buffer_reuse"] += 1
             sess.fault_fired_before = True
             return second
@@ -258,7 +287,12 @@ class C14(PropBase):
             if not is_lit and (out.value != s or type(out.value) is not str):
                 sess.violation("load-plain-text-changed", i, {"s": s[:100], "got": repr(out.value)[:120]}, sig=f"load-plain-text-changed:{step['fn']}")
         elif op == "reuse":
-            first, second, ref = sess._c14
+            first, second, ref, c_first, c_ref1 = sess._c14
+            if c_first.ok != c_ref1.ok or (c_first.ok and c_first.value != c_ref1.value):
+                sess.violation("first-result-follows-the-buffer", i, {"t_first": model.tsrc(step["t_first"]), "first": step["first"][:80], "second": step["second"][:80],
+                                                                     "read_after_reuse": repr(c_first)[:160], "same_text_as_str": repr(c_ref1)[:160]},
+                               sig=f"first-result-follows-the-buffer:{step['buf']}")
+                return
             if second.ok != ref.ok or (second.ok and not model.same(second.value, ref.value)):
                 sess.violation("buffer-reuse-stale", i, {"t": model.tsrc(step["t"]), "first": step["first"][:80], "second": step["second"][:80],
                                                          "got": repr(second)[:140], "want": repr(ref)[:140]}, sig=f"buffer-reuse-stale:{step['buf']}")
